@@ -1,4 +1,5 @@
 import HcipyVerif.Model.Coords
+import HcipyVerif.Model.GridLayout
 
 /-!
 # C10 — the hash of the code *before* the repair of D24 (documentation only)
@@ -39,5 +40,10 @@ def regEqOld (a b : List RegAxisOld) : Bool :=
 /-- the old hash fed the raw buffers (`h.update(self.delta)` …) -/
 def regHashInputOld (a : List RegAxisOld) : List TokOld :=
   a.map (·.delta.tokOld) ++ a.map (fun x => TokOld.i64 x.dim) ++ a.map (·.zero.tokOld)
+
+/-- D26, the code before the repair: `h.update(arr)` reads the raw buffer and needs it contiguous — a view with
+another stride raises `ValueError` (`none`) -/
+def rawHashInput? (arrs : List LArr) : Option (List Rat) :=
+  if arrs.all LArr.contiguous then some (arrs.map LArr.values).flatten else none
 
 end HcipyVerif.Grid.Old
